@@ -4,7 +4,7 @@
    is younger than 1.5 s) are checked on every simulated run of the real node by c04's checker and by
    trace validation of the model -- see the level note (partial). *)
 From BT Require Import model.Prelude model.Compact model.Krpc model.Token model.Storage model.Table model.Txn model.Handler.
-From BT Require Import proofs.Handler_Facts.
+From BT Require Import proofs.Handler_Facts proofs.Refresh_Facts proofs.Termination_Facts.
 Open Scope Z_scope.
 
 (* the timer fires entries in (deadline, id) order: the entry it yields is in the queue and no
@@ -49,4 +49,289 @@ Example c04_silent_three_seconds :
   let outs := snd (run I (fun _ => true) cf true true (ns_init 5 0) evs) in
   nth 3 outs [] = [] /\ nth 4 outs [] = [OStreamEnd 2] /\
   existsb (fun o => match o with OSend d _ => addr_eqb d nd | _ => false end) (nth 2 outs []) = true.
+Proof. vm_compute. repeat split. Qed.
+
+(* ================================================================== second part *)
+(* ------------------------------------------------------------------ the hypotheses on the transaction ids *)
+(* The searches are activities 2, 3, ... of the node; the theorems below are about runs in which fewer
+   than K activities are started, where the first K activities have pairwise distinct action ids that
+   fit the 5-byte prefix of a transaction id, and message ids that fit the 3-byte suffix.  The real
+   generators guarantee this for K = 2^40 (C19: c19_aid_no_repeat_before_wrap; aid_lt, mid_lt).
+   Injectivity for ALL activity indices cannot be assumed (there are only 2^40 prefixes). *)
+Theorem c04_good_ids_meaning : forall I K, GoodIds I K <->
+  (forall a, (a < K)%nat -> (aid_of I a < 2 ^ 40)%N) /\
+  (forall a m, (a < K)%nat -> (mid_of I a m < 2 ^ 24)%N) /\
+  (forall a b, (a < K)%nat -> (b < K)%nat -> aid_of I a = aid_of I b -> a = b).
+Proof. exact GoodIds_meaning. Qed.
+
+(* non-vacuity of the hypotheses: action ids k + 100, message ids counting up modulo 2^24 *)
+Theorem c04_good_ids_nonvacuous :
+  GoodIds (mkIds (fun k => N.of_nat k + 100)%N (fun k n => (N.of_nat n mod 2 ^ 24)%N)) 4096.
+Proof. exact example_ids_good. Qed.
+
+(* ------------------------------------------------------------------ (1) no stuck search *)
+(* After ANY events -- datagrams, timer firings, search requests, bootstrap changes, of any number and
+   in any order, handled at non-decreasing times t <= t1 <= t2 <= ... -- every search that is still open
+     - is ongoing (in its end-game, or with at least one outstanding query);
+     - if it is not in its end-game: every outstanding query carries the action id of the search, and
+       the timeout entry it remembers is pending in the timer and due at most 1.5 s after the time of
+       the last event handled;
+     - if it is in its end-game: an end-game entry carrying its action id is pending, due at most 1.5 s
+       after the last event, and the queries of the end-game round remember the key of that entry;
+     - in both cases: some timer entry of its own is pending and due within 1.5 s of the last event.
+   So, given that due timer entries are served (the runtime's part), no search can wait for ever. *)
+Theorem c04_no_stuck_search : forall I K sendok cf qe id t0 t evs,
+  (forall a, (a < K)%nat -> (aid_of I a < 2 ^ 40)%N) ->
+  (forall a m, (a < K)%nat -> (mid_of I a m < 2 ^ 24)%N) ->
+  (forall a b, (a < K)%nat -> (b < K)%nat -> aid_of I a = aid_of I b -> a = b) ->
+  etimes_from t evs ->
+  (2 + length (filter (fun te => match snd te with EvStartLookup _ _ => true | _ => false end) evs) <= K)%nat ->
+  let s := fst (run I sendok cf true qe (ns_init id t0) evs) in
+  forall lk, In lk (ns_lookups s) ->
+    lookup_ongoing lk = true /\
+    (lk_endgame lk = false ->
+       lk_active lk <> [] /\
+       forall tid d key, In (tid, (d, key)) (lk_active lk) ->
+         tid_action tid = Some (aid_of I (lk_act lk)) /\
+         exists e, In e (tm_entries (ns_timer s)) /\ (te_deadline e, te_id e) = key /\
+                   te_task e = TkLookupTimeout tid /\ te_deadline e <= elast t evs + lookup_timeout) /\
+    (lk_endgame lk = true ->
+       exists e tid, In e (tm_entries (ns_timer s)) /\ te_task e = TkLookupEndGame tid /\
+                     tid_action tid = Some (aid_of I (lk_act lk)) /\ te_deadline e <= elast t evs + endgame_timeout /\
+                     forall tid' d key, In (tid', (d, key)) (lk_active lk) -> key = (te_deadline e, te_id e)) /\
+    (exists e, In e (tm_entries (ns_timer s)) /\
+               match te_task e with
+               | TkRefresh => None
+               | TkLookupTimeout x => tid_action x
+               | TkLookupEndGame x => tid_action x
+               end = Some (aid_of I (lk_act lk)) /\
+               te_deadline e <= elast t evs + Z.max lookup_timeout endgame_timeout).
+Proof. exact no_stuck_search_explicit. Qed.
+
+(* both time-outs are 1.5 s *)
+Theorem c04_timeouts : lookup_timeout = 1500000000 /\ endgame_timeout = 1500000000.
+Proof. split; reflexivity. Qed.
+
+(* The invariant behind it.  [Inv I now s]: the timer discipline J (C11), the remembered refresh key
+   is that of the one pending refresh entry, the open searches have pairwise distinct activity
+   indices handed out earlier, every open search is served at time [now], and every end-game entry
+   in the timer carries the action id of an earlier activity which, if still an open search, is in
+   its end-game. *)
+Theorem c04_inv_meaning : forall I now s, Inv I now s <->
+  J s /\
+  ((refresh_part (ns_timer s) = [] /\ ns_refresh_pending s = None) \/
+   (exists e, refresh_part (ns_timer s) = [e] /\ ns_refresh_pending s = Some (te_key e))) /\
+  (NoDup (map lk_act (ns_lookups s)) /\ forall a, In a (map lk_act (ns_lookups s)) -> (a < ns_next_act s)%nat) /\
+  Served I now s /\
+  (forall e tid, In e (tm_entries (ns_timer s)) -> te_task e = TkLookupEndGame tid ->
+     exists a, (a < ns_next_act s)%nat /\ tid_action tid = Some (aid_of I a) /\
+               forall lk, In lk (ns_lookups s) -> lk_act lk = a -> lk_endgame lk = true).
+Proof. exact Inv_meaning. Qed.
+
+Theorem c04_served_meaning : forall I now s lk, Served I now s -> In lk (ns_lookups s) ->
+  lookup_ongoing lk = true /\
+  (lk_endgame lk = false ->
+     lk_active lk <> [] /\
+     forall tid d key, In (tid, (d, key)) (lk_active lk) ->
+       tid_action tid = Some (aid_of I (lk_act lk)) /\
+       exists e, In e (tm_entries (ns_timer s)) /\ (te_deadline e, te_id e) = key /\
+                 te_task e = TkLookupTimeout tid /\ te_deadline e <= now + lookup_timeout) /\
+  (lk_endgame lk = true ->
+     exists e tid, In e (tm_entries (ns_timer s)) /\ te_task e = TkLookupEndGame tid /\
+                   tid_action tid = Some (aid_of I (lk_act lk)) /\ te_deadline e <= now + endgame_timeout /\
+                   forall tid' d key, In (tid', (d, key)) (lk_active lk) -> key = (te_deadline e, te_id e)).
+Proof. exact Served_unfold. Qed.
+
+(* the invariant holds initially, at any time ... *)
+Theorem c04_inv_init : forall I now id t0, Inv I now (ns_init id t0).
+Proof. exact Inv_init. Qed.
+
+(* ... and is kept by every event, whenever (later) it is handled, as long as activity indices < K remain *)
+Theorem c04_inv_step : forall I K, GoodIds I K -> forall sendok cf qe now now' s e,
+  Inv I now s -> now <= now' -> (ns_next_act (fst (step I sendok cf true qe now' s e)) <= K)%nat ->
+  Inv I now' (fst (step I sendok cf true qe now' s e)).
+Proof. exact Inv_step. Qed.
+
+Theorem c04_inv_run : forall I K sendok cf qe id t0 t evs, GoodIds I K -> etimes_from t evs ->
+  (2 + length (filter (fun te => match snd te with EvStartLookup _ _ => true | _ => false end) evs) <= K)%nat ->
+  Inv I (elast t evs) (fst (run I sendok cf true qe (ns_init id t0) evs)).
+Proof. exact served_run_starts. Qed.
+
+(* a run hands out at most 2 + (number of search requests) activity indices *)
+Theorem c04_activities_bounded : forall I sendok cf sr qe id t0 evs,
+  (ns_next_act (fst (run I sendok cf sr qe (ns_init id t0) evs)) <=
+   2 + length (filter (fun te => match snd te with EvStartLookup _ _ => true | _ => false end) evs))%nat.
+Proof. exact run_next_act. Qed.
+
+(* ------------------------------------------------------------------ (2) every end is a completion, exactly once *)
+(* (for both variants of the refresh and of the handler, no hypothesis on the ids)
+   For every event: a stream end is emitted for exactly those searches that were open before the event
+   or were started by it, and are not open after it ... *)
+Theorem c04_stream_end_iff : forall I sendok cf sr qe now s e a,
+  (NoDup (map lk_act (ns_lookups s)) /\ forall x, In x (map lk_act (ns_lookups s)) -> (x < ns_next_act s)%nat) ->
+  let s' := fst (step I sendok cf sr qe now s e) in
+  (In (OStreamEnd a) (snd (step I sendok cf sr qe now s e)) <->
+   (In a (map lk_act (ns_lookups s)) \/ (ns_next_act s <= a < ns_next_act s')%nat) /\
+   ~ In a (map lk_act (ns_lookups s'))).
+Proof. exact stream_end_iff. Qed.
+
+(* ... each of them exactly once ... *)
+Theorem c04_stream_end_once : forall I sendok cf sr qe now s e,
+  (NoDup (map lk_act (ns_lookups s)) /\ forall x, In x (map lk_act (ns_lookups s)) -> (x < ns_next_act s)%nat) ->
+  NoDup (flat_map (fun o => match o with OStreamEnd a => [a] | _ => [] end) (snd (step I sendok cf sr qe now s e))).
+Proof. exact stream_end_once. Qed.
+
+(* ... as a multiset equation: ended ++ open afterwards = started by the event ++ open before *)
+Theorem c04_stream_end_accounting : forall I sendok cf sr qe now s e,
+  (NoDup (map lk_act (ns_lookups s)) /\ forall x, In x (map lk_act (ns_lookups s)) -> (x < ns_next_act s)%nat) ->
+  let s' := fst (step I sendok cf sr qe now s e) in
+  (ns_next_act s <= ns_next_act s')%nat /\
+  Permutation.Permutation
+    (flat_map (fun o => match o with OStreamEnd a => [a] | _ => [] end) (snd (step I sendok cf sr qe now s e))
+     ++ map lk_act (ns_lookups s'))
+    (seq (ns_next_act s) (ns_next_act s' - ns_next_act s) ++ map lk_act (ns_lookups s)).
+Proof. exact step_acct. Qed.
+
+(* the hypothesis of the three theorems above (open searches have distinct activity indices, all
+   handed out already) holds initially and is kept by every event *)
+Theorem c04_open_distinct_init : forall id t0,
+  NoDup (map lk_act (ns_lookups (ns_init id t0))) /\
+  forall x, In x (map lk_act (ns_lookups (ns_init id t0))) -> (x < ns_next_act (ns_init id t0))%nat.
+Proof. exact U_init. Qed.
+
+Theorem c04_open_distinct_step : forall I sendok cf sr qe now s e,
+  (NoDup (map lk_act (ns_lookups s)) /\ forall x, In x (map lk_act (ns_lookups s)) -> (x < ns_next_act s)%nat) ->
+  let s' := fst (step I sendok cf sr qe now s e) in
+  NoDup (map lk_act (ns_lookups s')) /\ forall x, In x (map lk_act (ns_lookups s')) -> (x < ns_next_act s')%nat.
+Proof. exact step_U. Qed.
+
+(* (i) after its stream end a search is not open any more; (ii) a search that disappears from the open
+   searches has its stream end among the outputs of that very event *)
+Theorem c04_ended_not_open : forall I sendok cf sr qe now s e a,
+  (NoDup (map lk_act (ns_lookups s)) /\ forall x, In x (map lk_act (ns_lookups s)) -> (x < ns_next_act s)%nat) ->
+  In (OStreamEnd a) (snd (step I sendok cf sr qe now s e)) ->
+  ~ In a (map lk_act (ns_lookups (fst (step I sendok cf sr qe now s e)))).
+Proof. exact ended_not_open. Qed.
+
+Theorem c04_closed_has_end : forall I sendok cf sr qe now s e lk,
+  (NoDup (map lk_act (ns_lookups s)) /\ forall x, In x (map lk_act (ns_lookups s)) -> (x < ns_next_act s)%nat) ->
+  In lk (ns_lookups s) -> ~ In (lk_act lk) (map lk_act (ns_lookups (fst (step I sendok cf sr qe now s e)))) ->
+  In (OStreamEnd (lk_act lk)) (snd (step I sendok cf sr qe now s e)).
+Proof. exact closed_has_end. Qed.
+
+(* over a whole run: once the stream end of a search has been emitted, no later event emits a second
+   stream end or yields a result for that search *)
+Theorem c04_end_is_final : forall I sendok cf sr qe id t0 evs1 now e evs2 a,
+  let s1 := fst (run I sendok cf sr qe (ns_init id t0) evs1) in
+  In (OStreamEnd a) (snd (step I sendok cf sr qe now s1 e)) ->
+  forall o, In o (concat (snd (run I sendok cf sr qe (fst (step I sendok cf sr qe now s1 e)) evs2))) ->
+    o <> OStreamEnd a /\ forall x, o <> OYield a x.
+Proof. exact end_is_final. Qed.
+
+(* ------------------------------------------------------------------ (3) not early *)
+(* the cause of a stream end: either the search was started by this very event (and found nobody to
+   ask: c04_immediate_without_good_node), or the event is the firing of an end-game entry that
+   carries the action id of the search, which was open *)
+Theorem c04_stream_end_cause : forall I K, GoodIds I K -> forall sendok cf qe now now' s e a,
+  Inv I now s -> now <= now' -> (ns_next_act (fst (step I sendok cf true qe now' s e)) <= K)%nat ->
+  In (OStreamEnd a) (snd (step I sendok cf true qe now' s e)) ->
+  (ns_next_act s <= a < ns_next_act (fst (step I sendok cf true qe now' s e)))%nat \/
+  (e = EvTimer /\
+   exists en tm tid lk, pop_timer (ns_timer s) = Some (en, tm) /\ te_task en = TkLookupEndGame tid /\
+     tid_action tid = Some (aid_of I a) /\ In lk (ns_lookups s) /\ lk_act lk = a).
+Proof. exact stream_end_cause. Qed.
+
+(* an open search whose stream end is emitted was in its end-game (all its earlier queries answered or
+   timed out), and the event is the firing of an end-game entry with its action id *)
+Theorem c04_closed_in_endgame : forall I K, GoodIds I K -> forall sendok cf qe now now' s e lk,
+  Inv I now s -> now <= now' -> (ns_next_act (fst (step I sendok cf true qe now' s e)) <= K)%nat ->
+  In lk (ns_lookups s) -> In (OStreamEnd (lk_act lk)) (snd (step I sendok cf true qe now' s e)) ->
+  lk_endgame lk = true /\
+  (e = EvTimer /\
+   exists en tm tid lk', pop_timer (ns_timer s) = Some (en, tm) /\ te_task en = TkLookupEndGame tid /\
+     tid_action tid = Some (aid_of I (lk_act lk)) /\ In lk' (ns_lookups s) /\ lk_act lk' = lk_act lk).
+Proof. exact closed_in_endgame. Qed.
+
+(* a search that is not in its end-game -- one of its queries is neither answered nor timed out -- is
+   still open after the event, whatever the event: neither a response, nor the timeout of a query,
+   nor anything else closes it; when its last outstanding query is answered or times out it enters
+   its end-game instead (and then stays open until the end-game entry, due 1.5 s later, fires) *)
+Theorem c04_not_endgame_stays_open : forall I K, GoodIds I K -> forall sendok cf qe now now' s e lk,
+  Inv I now s -> now <= now' -> (ns_next_act (fst (step I sendok cf true qe now' s e)) <= K)%nat ->
+  In lk (ns_lookups s) -> lk_endgame lk = false ->
+  In (lk_act lk) (map lk_act (ns_lookups (fst (step I sendok cf true qe now' s e)))).
+Proof. exact not_endgame_stays_open. Qed.
+
+(* an open search survives every event that is not the firing of an end-game entry with its action id *)
+Theorem c04_open_search_survives : forall I K, GoodIds I K -> forall sendok cf qe now now' s e lk,
+  Inv I now s -> now <= now' -> (ns_next_act (fst (step I sendok cf true qe now' s e)) <= K)%nat ->
+  In lk (ns_lookups s) ->
+  (forall en tm tid, e = EvTimer -> pop_timer (ns_timer s) = Some (en, tm) -> te_task en = TkLookupEndGame tid ->
+                     tid_action tid <> Some (aid_of I (lk_act lk))) ->
+  In (lk_act lk) (map lk_act (ns_lookups (fst (step I sendok cf true qe now' s e)))).
+Proof. exact open_search_survives. Qed.
+
+(* the boolean checker used in the example below decides (soundly) that every open search is served *)
+Theorem c04_served_checker_sound : forall I now s, served_b I now s = true -> Served I now s.
+Proof. exact served_b_sound. Qed.
+
+Print Assumptions c04_good_ids_meaning.
+Print Assumptions c04_good_ids_nonvacuous.
+Print Assumptions c04_no_stuck_search.
+Print Assumptions c04_timeouts.
+Print Assumptions c04_inv_meaning.
+Print Assumptions c04_served_meaning.
+Print Assumptions c04_inv_init.
+Print Assumptions c04_inv_step.
+Print Assumptions c04_inv_run.
+Print Assumptions c04_activities_bounded.
+Print Assumptions c04_stream_end_iff.
+Print Assumptions c04_stream_end_once.
+Print Assumptions c04_stream_end_accounting.
+Print Assumptions c04_open_distinct_init.
+Print Assumptions c04_open_distinct_step.
+Print Assumptions c04_ended_not_open.
+Print Assumptions c04_closed_has_end.
+Print Assumptions c04_end_is_final.
+Print Assumptions c04_stream_end_cause.
+Print Assumptions c04_closed_in_endgame.
+Print Assumptions c04_not_endgame_stays_open.
+Print Assumptions c04_open_search_survives.
+Print Assumptions c04_served_checker_sound.
+
+(* non-vacuity, a search with two contacts A and B: A answers after 0.1 s naming a closer node C,
+   B and C stay silent.  Queries to B and A at 2 s (timeouts due 3.5 s); A's answer at 2.1 s cancels
+   A's timeout and sends a query to C (timeout due 3.6 s); B's timeout fires at 3.5 s (one query
+   still outstanding: no end-game yet); C's timeout at 3.6 s starts the end-game (entry due 5.1 s);
+   its firing at 5.1 s ends the stream.  After every event every open search is served (checked by
+   the sound checker), the refresh entry (due 6 s) stays pending throughout. *)
+Example c04_one_answers_one_silent :
+  let I := mkIds (fun k => N.of_nat k + 100)%N (fun k n => (N.of_nat n mod 2 ^ 24)%N) in
+  let cf := mkCfg 5 false false None in
+  let ndA := mkAddr false 167772162 7001 in
+  let ndB := mkAddr false 167772163 7002 in
+  let ndC := mkAddr false 167772164 7003 in
+  let evs := [(0, EvBootState BBootstrapped);
+              (1000000000, EvBootTable (2 ^ 159)%N ndA []); (1000000000, EvBootTable (2 ^ 158)%N ndB []);
+              (2000000000, EvStartLookup 77%N false);
+              (2100000000, EvMsg ndA (mkMsg (tid_bytes 102 1) (Resp (mkResp (2 ^ 159)%N [] [mkNodeh 79%N ndC] [] None))));
+              (3500000000, EvTimer); (3600000000, EvTimer); (5100000000, EvTimer)] in
+  let sts := states I (fun _ => true) cf true true (ns_init 5 0) evs in
+  let outs := snd (run I (fun _ => true) cf true true (ns_init 5 0) evs) in
+  (* the pending timer entries after each event: (deadline, 0 = refresh / 1 = query timeout / 2 = end-game) *)
+  map (fun s => map (fun e => (te_deadline e, match te_task e with TkRefresh => 0 | TkLookupTimeout _ => 1 | TkLookupEndGame _ => 2 end)%nat)
+                    (tm_entries (ns_timer s))) sts =
+    [[(6000000000, 0%nat)]; [(6000000000, 0%nat)]; [(6000000000, 0%nat)];
+     [(6000000000, 0%nat); (3500000000, 1%nat); (3500000000, 1%nat)];
+     [(6000000000, 0%nat); (3500000000, 1%nat); (3600000000, 1%nat)];
+     [(6000000000, 0%nat); (3600000000, 1%nat)];
+     [(6000000000, 0%nat); (5100000000, 2%nat)];
+     [(6000000000, 0%nat)]] /\
+  (* the open searches after each event: (in end-game?, outstanding queries) *)
+  map (fun s => map (fun lk => (lk_endgame lk, length (lk_active lk))) (ns_lookups s)) sts =
+    [[]; []; []; [(false, 2%nat)]; [(false, 2%nat)]; [(false, 1%nat)]; [(true, 0%nat)]; []] /\
+  (* every open search is served after each event, at the time of that event *)
+  forallb (fun p => served_b I (fst p) (snd p)) (combine (map fst evs) sts) = true /\
+  (* the outputs from the response on *)
+  skipn 4 outs = [[OSend ndC (mkMsg (tid_bytes 102 2) (Req (GetPeers 5 77 None)))]; []; []; [OStreamEnd 2]].
 Proof. vm_compute. repeat split. Qed.
